@@ -3257,14 +3257,18 @@ class C14(Prop):
             return None
         cases, want = [], {}
         for i in range(ctx.n(400, 4000) * budget_scale):
+            # C14_functions_after_filters_from_text: a quarter of the paths have filter steps (then no aggregate: filter functions only)
+            with_filters = r.random() < 0.25
             for _try in range(5):
-                doc, text, spec, cur = gen_chain(g)
+                doc, text, spec, cur = gen_chain(g, filters=0.35) if with_filters else gen_chain(g)
                 if cur or r.random() < 0.15:
                     break
             names = [r.choice(['twice', 'wrap', 'tn', 'fstr', 'fstr', 'id', 'id', 'fail'] if r.random() < 0.3 else ['twice', 'wrap', 'fstr', 'id'])
                      for _ in range(r.randint(1, 3))]
             calls, outs = [], []
             agg = r.choice(['cnt', 'first', 'arr', 'amax', 'amax', 'afail']) if r.random() < 0.4 else None
+            if any(st[0] >= 7 for st in spec):
+                agg = None
             if agg:
                 # C14_aggregate_from_text: the aggregate first, called once with everything the steps reach (or with the
                 # elements of the single array a single-valued path reaches), not at all when they reach nothing
